@@ -223,6 +223,37 @@ pub fn cycle_kind(src: &str) -> Option<&'static str> {
     }
 }
 
+/// top-level definition shapes: type graphs (records / aliases referring to each other and to themselves),
+/// policy and asset definitions over a small expression alphabet, each with and without an alias present
+fn definition_programs() -> Vec<(String, String)> {
+    let mut out = vec![];
+    let targets = ["Int", "T0", "T1", "X"];
+    // records T0, T1 with two fields each drawn from `targets`, optional alias X
+    for a in 0..targets.len() {
+        for b in 0..targets.len() {
+            for c in 0..targets.len() {
+                for alias in ["", "type X = Int;", "type X = T0;", "type X = X;", "type X = List<X>;"] {
+                    let src = format!(
+                        "{alias}\ntype T0 {{\n    a: {},\n    b: {},\n}}\ntype T1 {{\n    c: {},\n}}\n",
+                        targets[a], targets[b], targets[c]
+                    );
+                    out.push((format!("types-{a}{b}{c}-{}", alias.len()), src));
+                }
+            }
+        }
+    }
+    let exprs = ["0xAB", "a", "a.b", "a.b.c", "a[0]", "f(a)", "T0 { a: 1, b: 2, }", "\"s\"", "a + b", "()"];
+    let contexts = ["", "type X = Int;", "type T0 {\n    a: Int,\n    b: Int,\n}", "env {\n    a: Int,\n}", "type X = Int;\ntype T0 {\n    a: X,\n    b: Int,\n}\nparty a;"];
+    for (ci, ctx) in contexts.iter().enumerate() {
+        for (ei, e) in exprs.iter().enumerate() {
+            out.push((format!("policy-hash-{ci}-{ei}"), format!("{ctx}\npolicy P {{\n    hash: {e},\n}}\n")));
+            out.push((format!("policy-script-{ci}-{ei}"), format!("{ctx}\npolicy P {{\n    hash: 0xAB,\n    script: {e},\n    ref: {e},\n}}\n")));
+            out.push((format!("asset-{ci}-{ei}"), format!("{ctx}\nasset A = {e}.{e};\n")));
+        }
+    }
+    out
+}
+
 pub fn front(src: &str) -> (String, Vec<Violation>) {
     crate::engine::set_phase("parse");
     let parsed = panics::catch(|| tx3_lang::parsing::parse_string(src));
@@ -262,7 +293,7 @@ impl Prop for C12 {
              every execution with <= {} deviations (other alternative / optional present / 1-2 repetitions / other literal from the boundary alphabets) \
              inside the rule is derived, depth <= 12; (2) token mutation: every token of every example program ({}) x {{delete, duplicate, swap, \
              replace by each of 24 tokens, literal stretching}}; (3) nesting: 9 recursive shapes x every depth 1..64; (4) cycles of mutually referring \
-             inputs / locals. Each string: parse_string, then analyze if it parsed. Non-trivial = the call sequence ran (returned, panicked or was killed); \
+             inputs / locals; (5) definition shapes: all type graphs over two records x five alias forms, policy / asset definitions over 10 expressions x 5 contexts. Each string: parse_string, then analyze if it parsed. Non-trivial = the call sequence ran (returned, panicked or was killed); \
              distinct = distinct source strings.",
             grammar_k(tier),
             if tier.is_thorough() { "all files" } else { "files whose analysis is fast" }
@@ -290,6 +321,9 @@ impl Prop for C12 {
         }
         for shape in 0..NEST_SHAPES {
             sink.case(|| json!({"kind": format!("nesting-{shape}"), "depth": 64, "src": nesting_source(shape, 64)}));
+        }
+        for (name, src) in definition_programs() {
+            sink.case(|| json!({"kind": "definitions", "name": name, "src": src}));
         }
         // grammar derivations
         match Grammar::load() {
